@@ -108,7 +108,7 @@ def coerce_float(maybe_float: _ScalarValue) -> float:
 
     try:
         return float(maybe_float)
-    except ValueError:
+    except (ValueError, OverflowError):
         raise ValueError(
             "Float cannot represent non numeric value: %s" % maybe_float
         )
